@@ -11,7 +11,7 @@ from .. import evm, asm, hermetic, runner, pipeline, gen, options
 
 ID = "C12"
 RULE = ("Hypothesis stateful machines (RuleBasedStateMachine): one machine = one process-like history with fixed options over a "
-        "pool of generated blocks (rules fired, stores, -storage/-partition splitting, zero pushes, commutative operations computed in both operand orders, loads kept across stores, stores of terms at varying stack depths); rules: process(block_i) as an "
+        "pool of generated blocks (rules fired, stores, -storage/-partition splitting, zero pushes, commutative operations computed in both operand orders, loads kept across stores, stores of terms at varying stack depths, blocks whose analysis fails); rules: process(block_i) as an "
         "isolated block and process_contract(permutation) as a contract, up to 40 steps, never resetting the tool's module state "
         "in between; after every step the specification dictionaries (all fields, identifiers included), sub-block list, optimized "
         "instructions, log ids and statistics row (minus timings) must equal the result of the same block on pristine module state; "
@@ -202,7 +202,8 @@ def pool_strategy():
                              gen.block(max_len=26, profile=gen.SPLIT_PROFILE), gen.corpus_block()), min_size=18, max_size=18)
     # blocks that populate the analysis' bookkeeping (unified instructions, kept loads) and blocks that are sensitive to it
     # (stores whose operand names vary): always present in a pool
-    setters = st.lists(st.one_of(gen.swapped_commutative_block(), gen.kept_loads_block()), min_size=5, max_size=5)
+    setters = st.builds(lambda a, b: a + b, st.lists(st.one_of(gen.swapped_commutative_block(), gen.kept_loads_block()), min_size=5, max_size=5),
+                        st.lists(gen.failing_block(), min_size=2, max_size=2))          # ... and blocks whose analysis fails
     observers = st.lists(st.one_of(gen.store_terms_block(), gen.two_store_block(), gen.kept_loads_block()), min_size=7, max_size=7)
     return st.builds(lambda a, b, c: a + b + c, rnd, setters, observers)
 
